@@ -14,6 +14,21 @@ def bytes (j : Json) (k : String) : E Bytes := do pure (← str j k).toList
 def bytesD (j : Json) (k : String) : Bytes := (strD j k "").toList
 def jbytes (b : Bytes) : Json := jstr (String.ofList b)
 
+/-- FNV-1a (64 bit) over the bytes -/
+def fnv1a64 (b : Bytes) : UInt64 :=
+  b.foldl (fun h c => (h ^^^ c.toNat.toUInt64) * 1099511628211) 14695981039346656037
+
+/-- a value as it is compared with the harness: as it is up to 1024 bytes; a longer one (bodies of up to some hundred
+    KiB and what the templates make of them) by its first and last 32 bytes, its length and its FNV-1a hash — the
+    harness (`c13Val`) renders the same -/
+def digest (b : Bytes) : String :=
+  let n := b.length
+  if n ≤ 1024 then String.ofList b else
+  String.ofList (b.take 32) ++ s!"...[{n} bytes fnv1a64={String.ofList (Nat.toDigits 16 (fnv1a64 b).toNat)}]..." ++
+    String.ofList (b.drop (n - 32))
+
+def jval (b : Bytes) : Json := jstr (digest b)
+
 def parseProbe (j : Json) : E Probe := do
   let a := bytesD j "a"
   match ← str j "k" with
@@ -62,21 +77,32 @@ def decName : DecKind → String
   | .json => "json" | .form => "form" | .yaml => "yaml"
 
 /-- the decoding oracle for the body of this case (computed by the generator for the trusted decoders) -/
-def parseDecoder (c : Json) (body : Option Bytes) : Decoder := fun k b =>
+def parseDecoder (c : Json) (body : Option String) : Decoder := fun k b =>
   -- no bytes at all (only the original Envoy request context decodes them): `url.ParseQuery("")` is the empty
   -- map, yaml.v3 leaves the map nil, go-json reports an error
   if b.isEmpty then (match k with | .form => some "{}".toList | .yaml => some "null".toList | .json => none) else
-  if some b ≠ body then none else
+  -- (compared as strings: bodies may be some hundred KiB long)
+  if some (String.ofList b) != body then none else
   match (fldD c "dec" Json.null).getObjVal? (decName k) with
   | .ok (.str s) => some s.toList
   | _ => none
+
+def parseLevel (c : Json) : E LogLevel :=
+  match strD c "log" "disabled" with
+  | "trace" => pure .trace
+  | "debug" => pure .debug
+  | "info" => pure .info
+  | "warn" => pure .warn
+  | "error" => pure .error
+  | "disabled" => pure .disabled
+  | l => throw s!"unknown log level {l}"
 
 def decStr : Dec → String
   | .ok => "ok" | .norule => "norule" | .argument => "argument" | .authorization => "authorization"
   | .internal => "internal" | .authentication => "authentication" | .communication => "communication"
 
 def jpairs (l : List (Bytes × Bytes)) : Json :=
-  jarr ((sortPairs (l.map fun kv => (String.ofList kv.1, String.ofList kv.2))).map fun kv => jstrs [kv.1, kv.2])
+  jarr ((sortPairs (l.map fun kv => (String.ofList kv.1, digest kv.2))).map fun kv => jstrs [kv.1, kv.2])
 
 /-- a Go map rendered as sorted pairs: the first entry of a key is the map's entry -/
 def dedup (l : List (Bytes × Bytes)) : List (Bytes × Bytes) :=
@@ -90,18 +116,26 @@ def seenJson (spyH spyC : List Bytes) (F : Funcs) (hm : List (Bytes × Bytes)) (
     ("headers", jpairs (dedup hm)),
     ("header", jarr (spyH.map fun n => jarr [jbytes n, jbytes (F.header n)])),
     ("cookie", jarr (spyC.map fun n => jarr [jbytes n, jbytes (F.cookie n)])),
-    ("body", jbytes F.body.render),
+    ("body", jval F.body.render),
     ("stable", Json.bool s.stable)]
 
-def outcomeJson (spyH spyC : List Bytes) (F : Funcs) (hm : List (Bytes × Bytes)) (o : Outcome) : Json :=
+def outcomeJson (ep : EP) (spyH spyC : List Bytes) (F : Funcs) (hm : List (Bytes × Bytes)) (o : Outcome) : Json :=
   Json.mkObj [
     ("dec", jstr (decStr o.dec)),
     ("status", jnat o.status),
     ("spy", match o.seen with | some s => seenJson spyH spyC F hm s | none => Json.null),
     ("up", if o.dec = .ok then
-        -- what the upstream application is shown, for the reserved header namespace of the tie
-        Json.mkObj [("headers", jpairs (dedup (o.upSees.filter fun kv => b!"X-C13-".isPrefixOf kv.1))),
-                    ("cookies", jpairs o.upCookies)] else Json.null)]
+        -- what the upstream application is shown, for the reserved header namespace of the tie; the payload it
+        -- receives is observable at the proxy service only (its upstream is part of the tie)
+        Json.mkObj ([("headers", jpairs (dedup (o.upSees.filter fun kv => b!"X-C13-".isPrefixOf kv.1))),
+                     ("cookies", jpairs o.upCookies)] ++
+                    (if ep = .proxy then [("payload", jval o.upBody)] else [])) else Json.null)]
+
+/-- the headers of the reserved namespace the upstream application is shown when every collected header is handed
+    over as the entry point does it (`Spec.delivered`): the signature of the known finding `C13-first-header-value` -/
+def deliveredHeaders (R : Respond) (lr : LReq) (ep : EP) (sp : Spec.Run) : Json :=
+  let o := Spec.delivered R lr ep sp
+  if o.dec = .ok then jpairs (dedup (o.upSees.filter fun kv => b!"X-C13-".isPrefixOf kv.1)) else Json.null
 
 def epName : EP → String
   | .decision => "decision" | .proxy => "proxy" | .envoy => "envoy"
@@ -138,17 +172,20 @@ def run (c : Json) : E Json := do
   if rejected then return Json.mkObj [("res", Json.mkObj [("load", jstr "rejected")])]
   let hasDefault := !(isNull c "default")
   let defaultPipe ← if hasDefault then parsePipe (fldD (← fld c "default") "pipe" (Json.mkObj [])) else pure { authz := [], fins := [] }
-  let cfg : Cfg := { repo, hasDefault, pipes, defaultPipe, D := parseDecoder c lr.body,
-                     respond := parseRespond (fldD c "respond" (Json.mkObj [])) }
+  let bodyStr : Option String := match (← fld c "req").getObjVal? "body" with
+    | .ok (.str s) => some s
+    | _ => none
+  let cfg : Cfg := { repo, hasDefault, pipes, defaultPipe, D := parseDecoder c bodyStr,
+                     respond := parseRespond (fldD c "respond" (Json.mkObj [])), logLevel := ← parseLevel c }
   -- the three entry points
   let mut res : List (String × Json) := []
   let mut stats : List (String × Json) := []
   for ep in [EP.decision, EP.envoy, EP.proxy] do
-    match mkCtx I cfg.D pack ep lr with
+    match mkCtx I cfg.D cfg.logLevel pack ep lr with
     | none => res := res ++ [(epName ep, Json.mkObj [("dec", jstr "badrequest")])]
     | some e =>
-      let o := finalize cfg.respond e.client ep (execute cfg e.funcs e.ctx)
-      res := res ++ [(epName ep, outcomeJson spyH spyC e.funcs e.headersMap o)]
+      let o := finalize cfg.respond e.client e.payload ep (execute cfg e.funcs e.ctx)
+      res := res ++ [(epName ep, outcomeJson ep spyH spyC e.funcs e.headersMap o)]
       stats := stats ++ [(epName ep, jstr (decStr o.dec))]
   let ck := toCheck pack lr
   res := res ++ [("check", Json.mkObj [
@@ -161,9 +198,11 @@ def run (c : Json) : E Json := do
     ("wellformed", Json.bool (Spec.wellFormed lr)),
     ("covered", Json.bool (Spec.covered I lr)),
     ("single_valued", Json.bool (Spec.singleValued sp)),
-    ("decision", outcomeJson spyH spyC F (Spec.headersMap lr) (Spec.answer cfg.respond lr .decision sp)),
-    ("envoy", outcomeJson spyH spyC F (Spec.headersMap lr) (Spec.answer cfg.respond lr .envoy sp)),
-    ("proxy", outcomeJson spyH spyC F (Spec.headersMap lr) (Spec.answer cfg.respond lr .proxy sp))]
+    ("delivered", Json.mkObj ([EP.decision, EP.envoy, EP.proxy].map fun ep =>
+      (epName ep, deliveredHeaders cfg.respond lr ep sp))),
+    ("decision", outcomeJson .decision spyH spyC F (Spec.headersMap lr) (Spec.answer cfg.respond lr .decision sp)),
+    ("envoy", outcomeJson .envoy spyH spyC F (Spec.headersMap lr) (Spec.answer cfg.respond lr .envoy sp)),
+    ("proxy", outcomeJson .proxy spyH spyC F (Spec.headersMap lr) (Spec.answer cfg.respond lr .proxy sp))]
   return Json.mkObj [("res", Json.mkObj res), ("spec", specJson), ("stats", Json.mkObj stats)]
 
 end Driver.EntryView
